@@ -36,6 +36,12 @@ def main():
     base = pathlib.Path(args[0])
     prefix = args[1] if len(args) > 1 else base.name
     pids = [c["property_id"] for c in json.load(open(V / "MANIFEST.json"))["checks"]]
+    if "--only" in sys.argv:      # --only C01,C02: the checks of the touched area (a full run is all 20)
+        sel = sys.argv[sys.argv.index("--only") + 1].split(",")
+        pids = [p for p in pids if p in sel]
+        args = [a for a in args if a != sys.argv[sys.argv.index("--only") + 1]]
+        base = pathlib.Path(args[0])
+        prefix = args[1] if len(args) > 1 else base.name
     bad = 0
     for d in sorted(p for p in base.iterdir() if (p / "patch.diff").exists()):
         WT[0] = f"/tmp/wt/ref-{prefix}-{d.name}"
@@ -52,7 +58,7 @@ def main():
         finally:
             sh(f"git -C /repo worktree remove --force {WT[0]}")
         fails = [(p, rc, l) for p, rc, l in results if rc != 0]
-        print(f"{prefix}-{d.name}: " + ("all 20 checks silent" if not fails else "ALARM " + ", ".join(f"{p}(exit {rc})" for p, rc, l in fails)))
+        print(f"{prefix}-{d.name}: " + (f"all {len(pids)} checks silent ({','.join(pids)})" if not fails else "ALARM " + ", ".join(f"{p}(exit {rc})" for p, rc, l in fails)))
         for p, rc, l in fails:
             bad += 1
             for x in l[:2]:
